@@ -376,6 +376,14 @@ func init() {
 		Old:    "\t\tif ch := s.read(); ch == '\\n' || ch == eof {\n\t\t\tbreak\n\t\t}",
 		New:    "\t\tif ch := s.read(); isAlphaNum(ch) {\n\t\t\tbreak\n\t\t}",
 		Expect: "(*parser.scanner).skipToEOL | loop#1"})
+	addFixture(Fixture{Name: "self-as-client-reports-success", Rule: "R-NIL-SUCCESS", File: "process/typechecker.go",
+		Old:    "\t\treturn nil, fmt.Errorf(\"found self, expected a client\")\n",
+		New:    "\t\treturn nil, nil\n",
+		Expect: "process.consumeName | success-has-a-value"})
+	addFixture(Fixture{Name: "blank-skipper-also-swallows-control-characters", Rule: "R-LOOKAHEAD-KEPT", File: "parser/scanner.go",
+		Old:    "\t\t} else if !isWhitespace(ch) {\n",
+		New:    "\t\t} else if !isWhitespace(ch) && ch >= ' ' {\n",
+		Expect: "(*parser.scanner).skipWhitespace | skips-only-what-it-classified"})
 	addFixture(Fixture{Name: "line-table-copied-per-newline", Rule: "R-PER-RUNE-CONST", File: "parser/scanner.go",
 		Old:    "\t\ts.pos.Lines = append(s.pos.Lines, s.pos.Char)",
 		New:    "\t\ts.pos.Lines = append(append([]int{}, s.pos.Lines...), s.pos.Char)",
